@@ -431,8 +431,27 @@ func runDialFuzzScenario(seed int64) *scenario {
 	base := "HTTP/1.1 101 Switching Protocols\r\nUpgrade: websocket\r\nConnection: Upgrade\r\nSec-WebSocket-Accept: KEY\r\nSec-WebSocket-Extensions: permessage-deflate; server_no_context_takeover; client_no_context_takeover\r\n\r\n"
 	pieces := []string{"HTTP/1.1 ", "HTTP/1.0 ", "101", "200", "407", "999999999999999999999", " ", "\r\n", "\n", ":", "Upgrade: websocket", "Connection: upgrade",
 		"Sec-WebSocket-Extensions: ", "permessage-deflate", "; x=\"", "\\", "\"", ",", ";", "=", "Content-Length: 99999999999", "Transfer-Encoding: chunked", "\x00", "\xff", "a"}
+	// well-formed replies of every body-delimiting kind (Content-Length, close-delimited, HTTP/1.0,
+	// chunked, none) and several statuses, used whole or with a mutated status / header
+	canned := []string{
+		"HTTP/1.1 200 OK\r\n\r\nhello",
+		"HTTP/1.0 403 Forbidden\r\n\r\nnope",
+		"HTTP/1.1 400 Bad Request\r\nTransfer-Encoding: chunked\r\n\r\n5\r\nhello\r\n0\r\n\r\n",
+		"HTTP/1.1 500 x\r\nConnection: close\r\n\r\n" + strings.Repeat("b", 3000),
+		"HTTP/1.1 302 Found\r\nLocation: http://x/\r\nContent-Length: 0\r\n\r\n",
+		"HTTP/1.1 204 No Content\r\n\r\n",
+		"HTTP/1.1 101 Switching Protocols\r\nUpgrade: websocket\r\nConnection: Upgrade\r\nSec-WebSocket-Accept: nope\r\n\r\ntrailing-bytes",
+		"HTTP/1.1 426 Upgrade Required\r\nContent-Length: 2000\r\n\r\n" + strings.Repeat("c", 2000),
+		"HTTP/1.1 200 OK\r\nContent-Length: 10\r\n\r\nshort",
+	}
 	mk := func() []byte {
-		switch r.Intn(5) {
+		switch r.Intn(6) {
+		case 5:
+			b := []byte(canned[r.Intn(len(canned))])
+			if r.Intn(3) == 0 {
+				b[r.Intn(len(b))] = byte(r.Intn(256))
+			}
+			return b
 		case 0:
 			b := make([]byte, r.Intn(200))
 			r.Read(b)
